@@ -103,6 +103,10 @@ def cases(ctx):
         for p_none in (0.0, 1.0):
             if mine():
                 yield {"kind": "ret_arr_long", "address": pick(rng, I32), "length": ln, "p_none": p_none, "seed": rng.randrange(2**31)}
+    for _ in range(ctx.n(40, 6000)):
+        if mine():
+            yield {"kind": "ret_arr_long", "address": pick(rng, I32), "length": rng.choice([1025, 2048, 2049, 3000, 5000, 9000, 20000]),
+                   "p_none": 0.5, "runs": True, "seed": rng.randrange(2**31)}
     for ln in (4, 64):
         if mine():
             yield {"kind": "threaded", "threads": 4, "length": ln, "rounds": 1500 if ctx.quick else 20000}
@@ -162,7 +166,24 @@ def _long_array(ctx, case):
     import random
     from netqasm.backend import messages as M
     r = random.Random(case["seed"])
-    vals = [None if r.random() < case["p_none"] else r.randint(-(2**31), 2**31 - 1) for _ in range(case["length"])]
+    if case.get("runs"):
+        # RUNS of equal content (a result array that is filled block by block: whole stretches still undefined, stretches of
+        # zeros, of ones, of random values), the run lengths at and around block sizes
+        vals = []
+        while len(vals) < case["length"]:
+            n_ = r.choice([1, 2, 7, 8, 9, 255, 256, 257, 1023, 1024, 1025, 2048, 4096, r.randrange(1, 3000)])
+            kind_ = r.choice(["none", "none", "zero", "zero", "one", "rand", "zero-or-none"])
+            if kind_ == "rand":
+                vals += [r.randint(-(2**31), 2**31 - 1) for _ in range(n_)]
+            elif kind_ == "zero-or-none":
+                vals += [r.choice([0, None]) for _ in range(n_)]
+            else:
+                vals += [{"none": None, "zero": 0, "one": 1}[kind_]] * n_
+        if r.random() < 0.5:
+            vals = vals[:case["length"]]
+        ctx.count("long_arrays_made_of_runs")
+    else:
+        vals = [None if r.random() < case["p_none"] else r.randint(-(2**31), 2**31 - 1) for _ in range(case["length"])]
     back = M.deserialize_return_msg(bytes(M.ReturnArrayMessage(address=case["address"], values=list(vals))))
     ctx.count("long_arrays_roundtripped")
     ctx.count("undefined_entries_checked", sum(v is None for v in vals))
